@@ -294,7 +294,15 @@ def state_diff(backend, s1, s2):
         scale = max(1.0, float(np.max(np.abs(m1))), float(np.max(np.abs(c1))))
         return max(float(np.max(np.abs(m1 - m2))), float(np.max(np.abs(c1 - c2)))), scale, 0.0
     d1, d2 = s1.dm(), s2.dm()
-    slack = 10 * max(abs(1 - s1.trace()), abs(1 - s2.trace()))
+
+    def leak(s):
+        # trace loss, and probability sitting in the top two Fock levels of any mode
+        pr = np.real(s.all_fock_probs())
+        D = pr.shape[0]
+        inner = pr[tuple(slice(0, D - 2) for _ in pr.shape)].sum()
+        return max(abs(1 - s.trace()), abs(pr.sum() - inner))
+
+    slack = 10 * max(leak(s1), leak(s2))
     return float(np.max(np.abs(d1 - d2))), 1.0, float(slack)
 
 
